@@ -27,6 +27,24 @@ Theorem C01_forest_valid :
 Proof. exact forest_valid. Qed.
 Print Assumptions C01_forest_valid.
 
+(* Cyclic forests (infinitely many trees): the summaries per packed node are given as a
+   certificate and only checked for local consistency (forest_ok_labelled_full); then EVERY
+   finite tree that unfolds from the root -- choose one alternative per visited node, through
+   any cycles -- is a derivation tree of the input. *)
+Theorem C01_cyclic_forest_valid :
+  forall (g : grammar) (tokok : N -> N -> N -> bool) (sk : N -> N) (strict : bool)
+         (start pos0 in_len : N) (consume : bool) (F : forest) (labels : list (option nsum)),
+    forest_ok_labelled_full g tokok sk strict start pos0 in_len consume F labels = true ->
+    forall t, unfolds F (pred (length F)) t ->
+      wf_tree g t /\ root_sym g t = Some (NT start) /\ (strict = true -> spans_ok t) /\
+      chain_ok sk (leaves t) /\ All (leaf_ok tokok) (leaves t) /\
+      match bounds (leaves t) with
+      | None => consume = true -> sk pos0 = in_len
+      | Some (fs, le) => fs = sk pos0 /\ le <= in_len /\ (consume = true -> sk le = in_len)
+      end.
+Proof. exact forest_labelled_full_valid. Qed.
+Print Assumptions C01_cyclic_forest_valid.
+
 (* the single-tree checker behind it *)
 Theorem C01_tree_valid :
   forall g tokok sk strict t sm, tsum g tokok sk strict t = Some sm -> good g tokok sk strict t sm.
